@@ -77,6 +77,10 @@ func streamObjHist(c *ctx) {
 		extq string
 	}
 	var pool []sent // messages seen so far, of any kind: decoding input
+	for _, cd := range [][]byte{{0xd2, 0x84, 0x41, 0xa0, 0xa0, 0x41, 0x01, 0x41, 0x02}, {0xd1, 0x84, 0x41, 0xa0, 0xa0, 0x41, 0x01, 0x41, 0x02}, {0xd0, 0x83, 0x41, 0xa0, 0xa0, 0x41, 0x01},
+		{0xd2, 0x84, 0x40, 0xa0, 0x41, 0x01, 0x41, 0x02}, {0xd1, 0x84, 0x40, 0xa0, 0x41, 0x01, 0x41, 0x02}, {0xd0, 0x83, 0x40, 0xa0, 0x41, 0x01}} {
+		pool = append(pool, sent{cd, genFkey(c, 0), nil, "None"})
+	}
 	for i := 0; i < n; i++ {
 		kind := pick(c.r, []string{"KSign1", "KMac0", "KEnc0"})
 		algs := []int{1, 5, 0}
@@ -108,6 +112,9 @@ func streamObjHist(c *ctx) {
 					data, from = e.data, &e
 				case len(pool) > 0 && c.r.intn(3) > 0:
 					e := pick(c.r, pool)
+					if c.r.intn(4) == 0 {
+						e = pool[c.r.intn(6)] // the messages with empty buckets
+					}
 					data, from = e.data, &e
 				default:
 					data = c.r.bytes(c.r.intn(6))
@@ -220,6 +227,15 @@ func streamObjHist(c *ctx) {
 			lines = append(lines, line+" => "+strings.SplitN(out, " ", 2)[0])
 			c.count(strings.SplitN(opq, " ", 2)[0] + " " + strings.SplitN(out, " ", 2)[0])
 			c.nontriv(kind + "|" + strings.SplitN(opq, " ", 2)[0] + "|" + strings.SplitN(out, " ", 2)[0])
+		}
+		// objects are independent of each other: whatever this history wrote into the maps of its object, a fresh object
+		// that decodes a message with empty buckets sees empty maps
+		for ck, cd := range map[string][]byte{"KSign1": {0xd2, 0x84, 0x41, 0xa0, 0xa0, 0x41, 0x01, 0x41, 0x02}, "KMac0": {0xd1, 0x84, 0x41, 0xa0, 0xa0, 0x41, 0x01, 0x41, 0x02}, "KEnc0": {0xd0, 0x83, 0x41, 0xa0, 0xa0, 0x41, 0x01}} {
+			fo := newHistObj(ck)
+			if err := fo.Decode(cd); err != nil || len(*fo.Prot()) != 0 || len(*fo.Unprot()) != 0 {
+				c.fail(failure{Op: "objhist", What: "a fresh object that decodes a message with empty header buckets does not see empty maps after another object was used", Input: short("objhist|" + kind + "|" + strings.Join(lines, " ; ") + fmt.Sprintf(" ; then fresh %s decodes %x", ck, cd)),
+					Observed: short(fmt.Sprintf("err=%v Protected=%v Unprotected=%v", err, *fo.Prot(), *fo.Unprot())), Expected: "empty maps", Case: "objhist|" + kind})
+			}
 		}
 		c.addCase(fmt.Sprintf("OCase %s [%s] [%s]", kind, strings.Join(ops, "; "), strings.Join(trace, "; ")), "objhist|"+kind+"|"+strings.Join(lines, " ; "))
 	}
